@@ -56,7 +56,8 @@ type fsFacts struct {
 	p         *core.Program
 	fns       []*ssa.Function
 	inPkg     map[*ssa.Function]bool
-	keyToPath map[*ssa.Function]bool // functions whose result is Join(base + shards of escaped key)
+	keyToPath map[*ssa.Function]bool // (kept for compatibility; destinations are recognised through destSlots)
+	destSlots map[*ssa.Alloc]bool     // local slices that hold [basepath, shards of escapingFunc(key)...]
 	memo      map[ssa.Value]pathClass
 	busy      map[ssa.Value]bool
 	staging   string // constant value of the staging directory name
@@ -90,11 +91,15 @@ func gatherFS(p *core.Program) *fsFacts {
 	return f
 }
 
-// isKeyToPath: fn's result is filepath.Join over a slice whose element 0 is the
-// base path and which is extended only by the sharding function applied to
-// escapingFunc(key).
+// analyseKeyToPath establishes where keys become paths. Wherever the sharding function is called (in a key-to-path
+// helper today; inlined into its callers just as well): its key argument is escapingFunc(key parameter), and the slice
+// it extends - a local whose element 0 is the base path and which receives nothing else - is then a "destination
+// slot": filepath.Join of a destination slot is a key's destination path (class DEST).
 func (f *fsFacts) analyseKeyToPath(c *core.Ctx) {
 	p := f.p
+	if f.destSlots == nil {
+		f.destSlots = map[*ssa.Alloc]bool{}
+	}
 	for _, fn := range f.fns {
 		var shardCalls []*ssa.Call
 		for _, ci := range core.Calls(fn) {
@@ -106,8 +111,11 @@ func (f *fsFacts) analyseKeyToPath(c *core.Ctx) {
 			continue
 		}
 		key := core.FuncKey(fn)
-		good := true
-		for _, sc := range shardCalls {
+		for i, sc := range shardCalls {
+			sfx := ""
+			if len(shardCalls) > 1 {
+				sfx = fmt.Sprintf("%d", i+1)
+			}
 			arg := core.Strip(sc.Call.Args[0])
 			ec, ok := arg.(*ssa.Call)
 			escOK := ok && fieldFuncCall(ec, "Store", f.escF)
@@ -116,28 +124,10 @@ func (f *fsFacts) analyseKeyToPath(c *core.Ctx) {
 				_, isParam := core.Strip(ec.Call.Args[0]).(*ssa.Parameter)
 				escOK = isParam
 			}
-			if !c.Check(escOK, key+"#shard-arg-escaped", p.Pos(sc.Pos()), "the sharding function receives escapingFunc(key)", "the sharding function receives a key that did not pass through the configured escaping function (raw key bytes such as '/' or '..' reach the filesystem path)") {
-				good = false
-			}
-		}
-		// result: filepath.Join(shards...) where shards is the local slice given to the sharding function, with [0] = basepath
-		for _, ret := range core.Returns(fn) {
-			if len(ret.Results) != 1 {
-				good = false
-				continue
-			}
-			jc, ok := core.Strip(ret.Results[0]).(*ssa.Call)
-			if !ok || !core.IsPkgFunc(jc, "path/filepath", "Join") {
-				good = false
-				c.Fail(key+"#result-join", p.Pos(ret.Pos()), "key-to-path function does not return filepath.Join of its shard slice")
-				continue
-			}
-			// the joined slice lives in a local (its address is what the sharding function appends to)
-			var slot *ssa.Alloc
-			if u, ok := jc.Call.Args[0].(*ssa.UnOp); ok {
-				slot, _ = u.X.(*ssa.Alloc)
-			}
-			hasBase, hasRawParam, sharded := false, false, false
+			good := c.Check(escOK, key+"#shard-arg-escaped"+sfx, p.Pos(sc.Pos()), "the sharding function receives escapingFunc(key)", "the sharding function receives a key that did not pass through the configured escaping function (raw key bytes such as '/' or '..' reach the filesystem path)")
+			// the slice the sharding function appends to: a local whose element 0 is the base path
+			slot, _ := sc.Call.Args[1].(*ssa.Alloc)
+			hasBase, foreign := false, false
 			if slot != nil {
 				isSlotLoad := func(v ssa.Value) bool {
 					u, ok := v.(*ssa.UnOp)
@@ -150,36 +140,30 @@ func (f *fsFacts) analyseKeyToPath(c *core.Ctx) {
 							if i, isC := core.ConstInt(ia.Index); isC && i == 0 && core.IsFieldRef(x.Val, "Store", f.baseF) {
 								hasBase = true
 							} else {
-								hasRawParam = true // any other element store is not part of the accepted shape
+								foreign = true // any other element store is not part of the accepted shape
 							}
 						}
 						if x.Addr == ssa.Value(slot) {
 							// whole-slice stores: only the initial make/slice
-							for w := range core.BackSlice(x.Val, core.SliceOpts{}) {
+							for w := range core.BackSlice(x.Val, core.SliceOpts{Local: true}) {
 								if prm, ok := w.(*ssa.Parameter); ok && isString(prm.Type()) {
-									hasRawParam = true
+									foreign = true
 								}
 							}
 						}
 					case ssa.CallInstruction:
 						for _, a := range x.Common().Args {
-							if a == ssa.Value(slot) {
-								if fieldFuncCall(x, "Store", f.shardF) {
-									sharded = true
-								} else {
-									hasRawParam = true
-								}
+							if a == ssa.Value(slot) && !fieldFuncCall(x, "Store", f.shardF) {
+								foreign = true
 							}
 						}
 					}
 				})
 			}
-			if !c.Check(slot != nil && hasBase && sharded && !hasRawParam, key+"#result-join", p.Pos(ret.Pos()), "result = Join(basepath, shards appended by the sharding function)", "the joined path is not exactly [basepath] extended by the sharding function") {
-				good = false
+			okSlot := c.Check(slot != nil && hasBase && !foreign, key+"#result-join"+sfx, p.Pos(sc.Pos()), "the sharded slice is [basepath] extended only by the sharding function", "the slice handed to the sharding function is not exactly [basepath] extended by the sharding function: something else ends up in the joined path")
+			if good && okSlot {
+				f.destSlots[slot] = true
 			}
-		}
-		if good {
-			f.keyToPath[fn] = true
 		}
 	}
 }
@@ -238,10 +222,20 @@ func (f *fsFacts) classify1(v ssa.Value) pathClass {
 	switch x := v.(type) {
 	case *ssa.Const:
 		return pcConst
+	case *ssa.Field:
+		// a field of a small state struct of the package (the captured values of a commit step turned into a type)
+		if cls, ok := f.classifyStructField(x.X.Type(), x.Field); ok {
+			return cls
+		}
 	case *ssa.UnOp:
 		if x.Op == token.MUL {
 			if core.IsFieldRef(x, "Store", f.baseF) {
 				return pcBase
+			}
+			if fa, ok := x.X.(*ssa.FieldAddr); ok {
+				if cls, ok := f.classifyStructField(fa.X.Type(), fa.Field); ok {
+					return cls
+				}
 			}
 			switch a := x.X.(type) {
 			case *ssa.Alloc:
@@ -390,6 +384,12 @@ func (f *fsFacts) classify1(v ssa.Value) pathClass {
 			return pcOther
 		}
 		if core.IsPkgFunc(x, "path/filepath", "Join") {
+			// Join of a destination slot: a key's destination path
+			if u, ok := x.Call.Args[0].(*ssa.UnOp); ok {
+				if slot, ok := u.X.(*ssa.Alloc); ok && f.destSlots[slot] {
+					return pcDest
+				}
+			}
 			// varargs slice: collect element values
 			elems := f.varargElems(x.Call.Args[0])
 			if len(elems) == 2 && f.classify(elems[0]) == pcBase && f.isStagingConst(elems[1]) {
@@ -446,6 +446,51 @@ func boundAlloc(fv *ssa.FreeVar) *ssa.Alloc {
 }
 
 // classifyAlloc: a local variable captured by reference; class = join of stored values.
+// fieldStores lists the values stored into field idx of the package's struct type t (anywhere in the package).
+func (f *fsFacts) fieldStores(t types.Type, idx int) []ssa.Value {
+	nt := namedOfType(t)
+	if nt == nil || nt.Obj().Pkg() == nil || core.RelPkg(nt.Obj().Pkg().Path()) != "storage/fsstore" || nt.Obj().Name() == "Store" {
+		return nil
+	}
+	var out []ssa.Value
+	for _, g := range f.fns {
+		for _, gg := range core.WithClosures(g) {
+			core.Instrs(gg, func(in ssa.Instruction) {
+				st, ok := in.(*ssa.Store)
+				if !ok {
+					return
+				}
+				fa, ok := st.Addr.(*ssa.FieldAddr)
+				if !ok || fa.Field != idx {
+					return
+				}
+				if n2 := namedOfType(fa.X.Type()); n2 != nil && n2.Obj() == nt.Obj() {
+					out = append(out, st.Val)
+				}
+			})
+		}
+	}
+	return out
+}
+
+// classifyStructField joins the classes of everything stored into that field.
+func (f *fsFacts) classifyStructField(t types.Type, idx int) (pathClass, bool) {
+	vals := f.fieldStores(t, idx)
+	if len(vals) == 0 {
+		return pcOther, false
+	}
+	cls := pathClass(-1)
+	for _, v := range vals {
+		c2 := f.classify(v)
+		if cls == -1 {
+			cls = c2
+		} else if cls != c2 {
+			cls = pcOther
+		}
+	}
+	return cls, true
+}
+
 func (f *fsFacts) classifyAlloc(al *ssa.Alloc) pathClass {
 	cls := pathClass(-1)
 	for _, fn := range core.WithClosures(al.Parent()) {
@@ -558,8 +603,8 @@ func runC17(c *core.Ctx) {
 		c.Undecided("storage/fsstore", "-", "package not found")
 	}
 	f.analyseKeyToPath(c)
-	if len(f.keyToPath) == 0 {
-		c.Fail("storage/fsstore#key-to-path", "-", "no function maps keys to paths through escapingFunc and shardingFunc under the base path")
+	if len(f.destSlots) == 0 {
+		c.Fail("storage/fsstore#key-to-path", "-", "nothing maps keys to paths through escapingFunc and shardingFunc under the base path")
 	}
 	n := map[string]int{}
 	for _, oc := range f.osCalls() {
@@ -671,6 +716,16 @@ func runC17(c *core.Ctx) {
 						// captured local buffer of the enclosing OpenWrite
 						if _, isPtr := x.Type().Underlying().(*types.Pointer); isPtr {
 							fresh = true
+						}
+					case *ssa.FieldAddr:
+						// ... or that buffer kept in a field of the write-in-progress state (an unexported type of the
+						// store's package holding a bytes.Buffer of its own)
+						if fv := fieldVar(x); fv != nil {
+							bt := namedOfType(fv.Type())
+							on := namedOfType(x.X.Type())
+							if bt != nil && bt.Obj().Pkg() != nil && bt.Obj().Pkg().Path() == "bytes" && bt.Obj().Name() == "Buffer" && on != nil && !on.Obj().Exported() {
+								fresh = true
+							}
 						}
 					}
 				}
@@ -799,8 +854,25 @@ func runC18(c *core.Ctx) {
 
 	c.Rule("C18.commit", "in the commit closure of PutStream: Close of the staging file (the very file returned as the io.Writer) dominates the move/rename, the rename is unreachable when Close failed, the abort branch (empty key) removes the staging file and cannot reach the rename", 5)
 	ps := p.Func("storage/fsstore", "*Store", "PutStream")
-	if ps == nil || len(ps.AnonFuncs) == 0 {
-		c.Undecided("storage/fsstore.(*Store).PutStream", "-", "PutStream or its commit closure not found")
+	// the committer(s): whatever function PutStream hands out as its second result - a function literal today, a
+	// method value of a small state type just as well
+	var committers []*ssa.Function
+	if ps != nil {
+		seenC := map[*ssa.Function]bool{}
+		for _, ret := range core.Returns(ps) {
+			if len(ret.Results) < 2 {
+				continue
+			}
+			for _, v := range core.ResultValues(ret, 1) {
+				if g := resolveFuncValue(v); g != nil && !seenC[g] {
+					seenC[g] = true
+					committers = append(committers, g)
+				}
+			}
+		}
+	}
+	if ps == nil || len(committers) == 0 {
+		c.Undecided("storage/fsstore.(*Store).PutStream", "-", "PutStream or the committer it returns not found")
 	} else {
 		key := core.FuncKey(ps)
 		// the staging file: result 0 of the write-mode OpenFile
@@ -830,7 +902,7 @@ func runC18(c *core.Ctx) {
 				path, reached := core.Reach(ps, open, successReturn(ret, errIdx), nilEdges, nil)
 				c.Check(!reached, key+"#open-error-tested", p.Pos(ret.Pos()), "success only when the staging file was created", "PutStream can succeed although creating the staging file failed", p.Witness(path)...)
 			}
-			for _, cl := range ps.AnonFuncs {
+			for _, cl := range committers {
 				ck := core.FuncKey(cl)
 				// calls that rename: os.Rename directly or a package helper reaching it
 				var moves []ssa.CallInstruction
@@ -971,6 +1043,30 @@ func (f *fsFacts) isCapturedOpen(rg *core.Region, v ssa.Value, open *ssa.Call) b
 	for w := range sl {
 		if extractOf(w, open, 0) {
 			return true
+		}
+	}
+	// the file kept in a field of a small state struct of the package (a commit closure turned into a method)
+	for w := range sl {
+		var t types.Type
+		idx := -1
+		switch x := w.(type) {
+		case *ssa.Field:
+			t, idx = x.X.Type(), x.Field
+		case *ssa.FieldAddr:
+			t, idx = x.X.Type(), x.Field
+		}
+		if idx < 0 {
+			continue
+		}
+		for _, sv := range f.fieldStores(t, idx) {
+			if extractOf(sv, open, 0) {
+				return true
+			}
+			for w2 := range core.BackSlice(sv, core.SliceOpts{Stores: true}) {
+				if extractOf(w2, open, 0) {
+					return true
+				}
+			}
 		}
 	}
 	return false
